@@ -140,6 +140,13 @@ theorem substr_is_slice {r : Rep} {s : Bytes} (h : Models r s) (i n : Int) (hlen
 theorem concat_is_append {r : Rep} {s b : Bytes} (h : Models r s) (hb : NulFree b) :
     ∃ r', r.concat b = some r' ∧ Models r' (s ++ b) := concat_spec h hb
 
+/-- `const char* + String` (`String s(a); s += b;`): in bounds, well-formed, the text is `a ++ b` -/
+theorem cstr_plus_string {r : Rep} {s a : Bytes} (h : Models r s) (ha : NulFree a) :
+    ∃ r', Rep.rconcat a r = some r' ∧ Models r' (a ++ s) := by
+  obtain ⟨r0, h0, hm0⟩ := ofCStr_spec a ha
+  obtain ⟨r', h1, hm1⟩ := append_ext hm0 h.2.2.1
+  exact ⟨r', by unfold Rep.rconcat; rw [h0, Option.bind_some, h.toList]; exact h1, hm1⟩
+
 /-- `trim()` (in place) and `trimmed()` remove exactly the leading and trailing blanks -/
 theorem trim_removes_blanks {r : Rep} {s : Bytes} (h : Models r s) :
     (∃ r', r.trim = some r' ∧ Models r' ((s.dropWhile isSpace).reverse.dropWhile isSpace).reverse) ∧
